@@ -79,6 +79,7 @@ PROPS = {
     "C20": {"jobs": [
         rapid("C20a", 150, 800, shrinktime="15s", shards=8),
         rapid("C20b", 120, 800, shards=2),
+        rapid("C20c", 24, 240, shards=4),
     ]},
     "C15": {"jobs": [
         rapid("C15a", 6000, 30000),
